@@ -165,6 +165,9 @@ func (q *AskHub[A]) Close() error {
 }
 
 func (q *AskHub[A]) CloseWithError(err error) {
+	if err == nil {
+		err = p2p.ErrClosed
+	}
 	q.closeOnce.Do(func() {
 		q.err = err
 		close(q.closed)
